@@ -11,6 +11,7 @@ size_t vx_dump_uplink_queues(char *buf, size_t n);
 unsigned vx_queue_len(int which);
 int vx_node_count(void);
 int vx_node_info(const uint8_t addr[4], vx_node_info_t *out);
+int vx_node_deferred(const uint8_t addr[4], uint8_t *types, int max);
 size_t vx_dump_nodes(char *buf, size_t n, long now_sec);
 void vx_thread_handles(unsigned long out[3]);
 #endif
